@@ -68,3 +68,47 @@ def execute_run_family(mod, cases, tier, vm_sample=None):
 def sample_of(c):
     s = {k: c[k] for k in ("text", "answers", "sys", "labels", "hash_threshold", "strict_cols", "mode") if k in c and c[k] not in (None, [], False)}
     return s
+
+
+def execute_parse_family(mod, cases, tier, vm_sample=None):
+    """family 'parse': case = {text, coltype, meta{expected?}}; implementation parse vs parser model
+    (and, where the generator knows it, vs the elaboration of the abstract script)."""
+    outs = vlib.run_impl("parse", [strip(c) for c in cases])
+    mcases = [[c["text"], c.get("coltype") == "two", o.get("re_valid", [])] for c, o in zip(cases, outs)]
+    mouts = vlib.run_model("parse", mcases)
+    if vm_sample is None:
+        vm_sample = 40 if tier == "quick" else 150
+    vm_n = vlib.vm_crosscheck("parse", mcases, mouts, vm_sample, mod.PID)
+    disagreements, known_hits = [], []
+    cats = collections.Counter()
+    keys = set()
+    observables = []
+    for c, o, m in zip(cases, outs, mouts):
+        io = {"panic": o["panic"]} if "panic" in o else vlib.norm(o["parse"])
+        pi, pm = mod.project(c, io), mod.project(c, m)
+        for lab in mod.categories(c, io):
+            cats[lab] += 1
+        k = mod.nontrivial_key(c, io)
+        if k is not None:
+            keys.add(k)
+        if len(observables) < 3:
+            observables.append({"impl": pi, "model": pm})
+        extra = mod.direct_check(c, io) if hasattr(mod, "direct_check") else None
+        if pi != pm or extra:
+            d = {"case": c, "impl": pi, "model": pm, "spec": extra or mod.spec_verdict(c, pi, pm), "broken": "corr_" + mod.PID}
+            kid = mod.classify_known(c, io, m) if hasattr(mod, "classify_known") else None
+            if kid:
+                d["known"] = kid
+                known_hits.append(kid)
+            disagreements.append(d)
+    stats = {
+        "evaluations": len(cases),
+        "model_evaluations": len(mcases),
+        "distinct_nontrivial": len(keys),
+        "rule": mod.RULE,
+        "categories": dict(sorted(cats.items())),
+        "vm_compute_crosschecked": vm_n,
+        "samples": [{"text": c["text"][:400]} for c in cases[:3]],
+        "disagreements": len(disagreements),
+    }
+    return {"stats": stats, "disagreements": disagreements, "known_hits": known_hits, "observables": observables}
